@@ -240,8 +240,9 @@ def translate(repo, print_shapes=False):
     G['g_dq_close'] = cps(m.group(1)[::-1])
 
     c = t.shape('quote.needs_quoting', _find(mod, ast.FunctionDef, 'needs_quoting'))
-    _need(len(c) == 5 and c[2] is False and all(isinstance(x, str) for x in c[:2] + c[3:]),
+    _need(len(c) == 6 and c[0] is True and c[3] is False and all(isinstance(x, str) for x in c[1:3] + c[4:]),
           f'needs_quoting consts {c}')
+    c = c[1:]      # drop the default allow_partial_reserved=True
     _need(len(c[0]) == 1, 'needs_quoting: startswith arg')
     G['g_ql_bad_start'] = ord(c[0])
     G['g_ql_bad_sub'] = cps(c[1])
@@ -254,7 +255,7 @@ def translate(repo, print_shapes=False):
     G['g_ql_id_quote'] = ord(c[0])
     G['g_ql_id_rep'] = cps(c[2])
     c = t.shape('quote.quote_ident', _find(mod, ast.FunctionDef, 'quote_ident'))
-    _need(c == [False, False, False], f'quote_ident defaults {c}')
+    _need(c == [False, False, False, True], f'quote_ident defaults {c}')
 
     # ------------------------------------------------------------------ edb/edgeql/codegen.py
     src = t.load('edb/edgeql/codegen.py')
@@ -282,7 +283,7 @@ def translate(repo, print_shapes=False):
     c = t.shape('codegen.param_to_str', _find(mod, ast.FunctionDef, 'param_to_str'))
     _need(c == ['`', '$', '$', True, True], f'param_to_str consts {c}')
     c = t.shape('codegen.ident_to_str', _find(mod, ast.FunctionDef, 'ident_to_str'))
-    _need(c == [False, '::', '::'], f'ident_to_str consts {c}')
+    _need(c == [False, False, '::', '::'], f'ident_to_str consts {c}')
     cls = _find(mod, ast.ClassDef, 'EdgeQLSourceGenerator')
     c = t.shape('codegen.visit_Constant', _find(mod, ast.FunctionDef, 'visit_Constant', cls))
     _need(len(c) == 8 and c[2] == '\\' and c[3] == 'r' and c[4] == 1 and c[5] == '\\u00' and c[6] == 1 and c[7] == 0
